@@ -137,6 +137,11 @@ pub fn run(ctx: &mut RunCtx) -> Result<(), Violation> {
     for _ in 0..6 {
         channel_faults.push(ChanFault::SpliceMask((f.u64() as u32) & ((1 << 26) - 1)));
     }
+    // every commitment once as the point at infinity, its claimed evaluations left as they are
+    // (a term a verifier skips for the identity shows in the pairing product)
+    for i in 0..crate::channel::N_COMMS {
+        channel_faults.push(ChanFault::NeutralField(i));
+    }
     for _ in 0..6 {
         channel_faults.push(ChanFault::SpliceField(f.usize(26)));
         channel_faults.push(ChanFault::SwapField(f.usize(26), f.usize(26)));
